@@ -564,11 +564,24 @@ impl<'tcx> Cx<'tcx> {
             let mut firsts = true;
             for st in data.statements.iter() {
                 let s = match &st.kind {
-                    StatementKind::Assign(b) => Some(format!(
-                        "{{\"k\":\"assign\",\"pl\":{},\"rv\":{}}}",
-                        self.place(body, &b.0),
-                        self.rvalue(did, body, &b.1)
-                    )),
+                    StatementKind::Assign(b) => {
+                        // innermost macro the statement's span comes from (only `cfg` matters: `cfg!(..)` lowers to a literal bool)
+                        let sp = st.source_info.span;
+                        let mac = if sp.from_expansion() {
+                            match sp.ctxt().outer_expn_data().kind {
+                                rustc_span::ExpnKind::Macro(_, name) => format!(",\"mac\":{}", esc(name.as_str())),
+                                _ => String::new(),
+                            }
+                        } else {
+                            String::new()
+                        };
+                        Some(format!(
+                            "{{\"k\":\"assign\",\"pl\":{},\"rv\":{}{}}}",
+                            self.place(body, &b.0),
+                            self.rvalue(did, body, &b.1),
+                            mac
+                        ))
+                    }
                     StatementKind::SetDiscriminant { place, variant_index } => Some(format!(
                         "{{\"k\":\"setdiscr\",\"pl\":{},\"v\":{}}}",
                         self.place(body, place),
